@@ -101,7 +101,7 @@ RvOK(r) ==
   /\ Le(r.mo, TolRel) /\ Le(r.mort, TolRel) /\ Le(r.mdet, TolRel)                      \* M = ENU frame at the returned position
   /\ (r0 => r.lon0)                                                                    \* X = Y = 0 -> lon = 0
   /\ r.slat * r.sz >= 0                                                                \* never the wrong hemisphere
-  /\ ~Underflow(r) =>
+  /\ TRUE =>      \* (no exemption: the subnormal-intermediate zone is a recorded known finding, see known_findings.json)
        /\ Le(r.e3, (IF r.hneg THEN TolRel ELSE TolFR) * s)                             \* forward image = the point
        /\ r.hb >= -(TolH * s)                                                          \* h >= -(1-e^2) nu
        /\ (cls = "pro" => r.hb2 >= -(TolH * s))
